@@ -30,7 +30,7 @@ type vsaExit struct {
 	from   *ssa.BasicBlock
 	result []aval // return operands
 	ret    *ssa.Return
-	cell   aval   // value of the designated memory cell at exit
+	cell   aval // value of the designated memory cell at exit
 }
 
 type vsa struct {
@@ -43,16 +43,16 @@ type vsa struct {
 	isCell func(addr ssa.Value) bool
 	// tables
 	sliceTab map[*ssa.Global][]int64         // evaluated element values
-	mapKeys  map[*ssa.Global]map[int64]bool   // key presence of scalar-keyed map literals
-	mapVals  map[*ssa.Global]map[int64]int64  // scalar values, if any
+	mapKeys  map[*ssa.Global]map[int64]bool  // key presence of scalar-keyed map literals
+	mapVals  map[*ssa.Global]map[int64]int64 // scalar values, if any
 	vals     map[ssa.Value][]aval
 	preset   map[ssa.Value][]aval // additional designated inputs (multi-input domains)
 	stores   []vsaStore           // stores to addresses other than the cell, with per-point index/value tables
-	exits    []vsaExit // per input
+	exits    []vsaExit            // per input
 	err      string
 	errValue ssa.Value // the value a branch needed but the domain does not determine
 	typeOfIn types.Type
-	reenter  *ssa.BasicBlock                          // edges into this block (the loop header) leave the region
+	reenter  *ssa.BasicBlock                      // edges into this block (the loop header) leave the region
 	onInstr  func(in ssa.Instruction, set []bool) // observer for side effects
 }
 
